@@ -37,7 +37,7 @@ def lf_cfg(steps, ops, nadd, empty, cdt, cit):
 def lf_configs(tier):
     """histories over ONE long-lived CheckpointControl object (spec/PersistCkptLife.tla): (steps, alphabet, NAdd, AllowEmpty, cdt, cit)"""
     if tier == "thorough":
-        return [(5, LF_ALL, 2, False, 8, 8), (7, LF_IO, 1, False, 8, 8), (5, LF_ALL, 1, False, 4, 4), (4, LF_ALL, 1, True, 8, 8)]
+        return [(5, LF_ALL, 2, False, 8, 8), (7, LF_IO, 1, False, 8, 8), (5, LF_ALL, 1, False, 4, 4), (4, LF_ALL, 2, True, 8, 8)]
     return [(4, LF_ALL, 1, False, 8, 8), (5, LF_IO, 1, False, 8, 8), (3, LF_ALL, 2, True, 4, 4)]
 
 
@@ -221,14 +221,17 @@ def run(chk):
             chk.sample({"objs": [(o["id"], o["c"]["kind"]) for o in c["objs"]], "restore": [x["id"] for x in c["restore"]], "total": c["total"],
                         "entries": [(e["id"], e["len"]) for e in c["entries"]]})
     for c in [x for x in cases if x["part"] == "stream"][-1:]:
-        chk.sample({"stream_history": [(o["op"], o["arg"], o["size"], o["pos"]) for o in c["ops"]]})
+        chk.sample({"stream_history": [(o["op"], o["arg"], o["size"], o["pos"]) for o in c["ops"]]}, cap=7)
     for c in [x for x in cases if x["part"] == "life" and nontrivial(x)][-1:]:
-        chk.sample({"checkpoint_life_history": [(o["op"], o["i"], o["s"], o["add"], "restorable", o["rst"]) for o in c["ops"]]})
+        chk.sample({"checkpoint_life_history": [(o["op"], o["i"], o["s"], o["add"], "restorable", o["rst"]) for o in c["ops"]]}, cap=8)
     chk.assumptions = ["values are dyadic (numerators over 4): general decimal rounding of the text formats is not explored (DESIGN.md sec. 7 residue)",
                        "zlib/zfp compression modes are compiled out of the baseline build and out of scope",
                        "container round trips go through std::stringstream / std::vector<char> / BinaryStream; the file-name overloads are sampled",
                        "BCSR has no MatrixMarket reader: its MatrixMarket output is read back through the CSR reader",
-                       "containers are built through the raw-array constructors (canonical sorted arrays, allocated == used for sparse vectors)"] + list(c05x.ASSUMPTIONS)
+                       "containers are built through the raw-array constructors (canonical sorted arrays, allocated == used for sparse vectors)",
+                       "CheckpointControl life histories: calls outside the documented preconditions (restore of an identifier the loaded input does not "
+                       "contain, load while input is loaded, add of a registered / remove of an unregistered identifier) must be REFUSED by XASSERT; "
+                       "they are observed in forked child processes and never continue a history; set_config (compression) is out of scope"] + list(c05x.ASSUMPTIONS)
 
 
 def replay(obj):
